@@ -345,6 +345,9 @@ def main(argv=None):
             if ctx.n_failures == 0:
                 print('replay: the case no longer violates %s' % prop)
             return 1 if violations else 0
+        # replay files are regenerated by every run: drop the ones of earlier runs (possibly against other trees)
+        import shutil
+        shutil.rmtree(os.path.join(VERIF, 'replays', prop), ignore_errors=True)
         mod.run(ctx)
         matched, violations = attribute_failures(mod, ctx)
         ctx.extra['_known'] = sum(n for _, n in matched.values())
